@@ -9,30 +9,10 @@ Import ListNotations.
 Local Open Scope N_scope.
 
 (* ---------- the index ---------- *)
-Lemma nonfinite_cases : forall w, f64_is_finite w = false -> f64_is_nan w = true \/ f64_is_inf w = true.
+Lemma vm_index_clamp : forall idx len, len <> 0 -> vm_index idx len = clamp_index idx len.
 Proof.
-  intros w H. unfold f64_is_finite, f64_is_nan, f64_is_inf in *. apply negb_false_iff in H. rewrite H. cbn [andb].
-  destruct (f64_frac w =? 0); auto.
-Qed.
-
-Lemma clampZ_zero : forall hi, (0 <= hi)%Z -> clampZ 0 0 hi = 0%Z.
-Proof. intros hi H. unfold clampZ. lia. Qed.
-
-Lemma clampZ_neg : forall z hi, (z <= 0)%Z -> (0 <= hi)%Z -> clampZ z 0 hi = 0%Z.
-Proof. intros z hi H1 H2. unfold clampZ. lia. Qed.
-
-Lemma vm_index_clamp : forall idx len, is_pinf idx = false -> len <> 0 -> vm_index idx len = clamp_index idx len.
-Proof.
-  intros idx len Hp Hl. unfold vm_index, clamp_index.
-  assert (Hhi : Z.of_N (len - 1) = (Z.of_N len - 1)%Z) by lia.
-  destruct (f64_is_finite idx) eqn:Ef; [rewrite Hhi; reflexivity|].
-  destruct (nonfinite_cases idx Ef) as [Hn|Hi].
-  - unfold f64_to_i64. rewrite Hn. rewrite clampZ_zero by lia. reflexivity.
-  - unfold is_pinf in Hp. rewrite Hi in Hp. cbn [andb] in Hp. apply negb_false_iff in Hp.
-    unfold f64_to_i64. assert (Hnn : f64_is_nan idx = false).
-    { unfold f64_is_nan, f64_is_inf in *. apply andb_true_iff in Hi. destruct Hi as [-> Hf]. rewrite Hf. reflexivity. }
-    rewrite Hnn, Hp. rewrite clampZ_neg; [reflexivity| |lia].
-    unfold f64_mag. rewrite Hi. unfold I64_MIN, U64_MAX. lia.
+  intros idx len Hl. unfold vm_index, clamp_index.
+  assert (Hhi : Z.of_N (len - 1) = (Z.of_N len - 1)%Z) by lia. rewrite Hhi. reflexivity.
 Qed.
 
 (* ---------- lists: writing the elements of a literal one after the other gives the literal ---------- *)
@@ -226,12 +206,12 @@ Proof. intros s k H. unfold arr_get. rewrite (nth_error_nth_some _ _ dummy_arr H
 
 Lemma vm_array_get_sim : forall t s a B av idx esz,
   varr_rel t (sp_arrs s) a B -> arr_arg (length (sp_arrs s)) av = true ->
-  arr_esz_ok s av esz = true -> is_pinf idx = false ->
+  arr_esz_ok s av esz = true ->
   exists r, spec_step s (OArrayGet av idx esz) = (s, r) /\
     sres_fault r = ires_fault (vm_array_get a (resolve t av) idx) /\
     (forall t', ext t t' -> res_rel t' r (vm_array_get a (resolve t av) idx)).
 Proof.
-  intros t s a B av idx esz HR Ha He Hp.
+  intros t s a B av idx esz HR Ha He.
   destruct (resolve_arr_arg t _ _ Ha) as (k & -> & Hk & Hres).
   unfold arr_esz_ok in He. cbn [spec_step]. rewrite arr_get_spec in * by exact Hk.
   apply N.eqb_eq in He. subst esz.
@@ -243,7 +223,7 @@ Proof.
   - destruct (N.of_nat (length (sa_data ar)) / sa_esz ar =? 0) eqn:El.
     + eexists. split; [reflexivity|]. cbn [sres_fault ires_fault res_rel]. split; [reflexivity|].
       intros t' _. clear. induction (N.to_nat (sa_esz ar)); cbn; [reflexivity|]. now f_equal.
-    + apply N.eqb_neq in El. rewrite (vm_index_clamp idx _ Hp El).
+    + apply N.eqb_neq in El. rewrite (vm_index_clamp idx _ El).
       eexists. split; [reflexivity|]. cbn [sres_fault ires_fault res_rel]. split; [reflexivity|].
       intros t' He. rewrite skipn_map, firstn_map. symmetry. apply map_resolve_ext; auto.
       apply vals_scoped_firstn, vals_scoped_skipn.
@@ -269,14 +249,14 @@ Qed.
 
 Lemma vm_array_set_sim : forall t s a B av idx src esz,
   varr_rel t (sp_arrs s) a B -> arr_arg (length (sp_arrs s)) av = true ->
-  arr_esz_ok s av esz = true -> is_pinf idx = false ->
+  arr_esz_ok s av esz = true ->
   vals_scoped (length (t_heap t)) (length (t_arr t)) src ->
   exists sa' r, spec_step s (OArraySet av idx src esz) = (with_arrs s sa', r) /\
     sres_fault r = ires_fault (snd (vm_array_set a (resolve t av) idx (map (resolve t) src))) /\
     (forall t', res_rel t' r (snd (vm_array_set a (resolve t av) idx (map (resolve t) src)))) /\
     (sres_fault r = false -> varr_rel t sa' (fst (vm_array_set a (resolve t av) idx (map (resolve t) src))) B).
 Proof.
-  intros t s a B av idx src esz HR Ha He Hp Hsrc.
+  intros t s a B av idx src esz HR Ha He Hsrc.
   destruct (resolve_arr_arg t _ _ Ha) as (k & -> & Hk & Hres).
   unfold arr_esz_ok in He. cbn [spec_step]. rewrite arr_get_spec in * by exact Hk.
   apply N.eqb_eq in He. subst esz.
@@ -288,7 +268,7 @@ Proof.
   - destruct (N.of_nat (length src) =? sa_esz ar) eqn:Es; cbn [negb].
     + destruct (N.of_nat (length (sa_data ar)) / sa_esz ar =? 0) eqn:El.
       * exists (sp_arrs s). eexists. split; [destruct s; reflexivity|]. cbn. spl. intros _. exact HR.
-      * apply N.eqb_neq in El. rewrite (vm_index_clamp idx _ Hp El).
+      * apply N.eqb_neq in El. rewrite (vm_index_clamp idx _ El).
         do 2 eexists. split; [reflexivity|]. cbn [sres_fault ires_fault res_rel fst snd]. spl.
         intros _. unfold vm_array_put; cbn [va_esz va_data]. rewrite map_length.
         set (st := N.to_nat (clamp_index idx (N.of_nat (length (sa_data ar)) / sa_esz ar) * sa_esz ar)).
